@@ -10,9 +10,11 @@
 (*        MaxItems, i.e. the limits of the FIELD's (outermost) array, and a   *)
 (*        validator exists at any depth only if the outermost has limits      *)
 (*        (pinned by golden validation/minMaxItems)                           *)
-(*   "NamedArrayUnvalidated"   a field whose type is a declared array type    *)
-(*        ($ref to an array definition) is a *NamedType, not *ArrayType: no    *)
-(*        validator at all, and declared array types get no unmarshaler       *)
+(*   "DeclaredArrayNestedUnchecked"  a declared array type ($ref to an array  *)
+(*        definition, a root array) checks its own limits in its unmarshaler   *)
+(*        (fix 9e8f58a; before it nothing was checked), but its inner levels    *)
+(*        are codegen.ArrayType VALUES, which the *ArrayType loop does not      *)
+(*        descend into: no validator below depth 1                              *)
 (*   "ZeroMaxIgnored"          MaxItems is a Go int: 0 means absent           *)
 (***************************************************************************)
 EXTENDS JV
@@ -49,4 +51,8 @@ DepthRejects(f, k, v, D) ==
 \* f: the field's schema (an inline array); v: the non-null decoded value
 ImplArrLengthsAccept(f, v, D) ==
   \A k \in 1..InlineDepth(f) : ~(Attached(f, k, D) /\ DepthRejects(f, k, v, D))
+\* f: the schema of a declared array type
+ImplDeclArrLengthsAccept(f, v, D) ==
+  \A k \in 1..(IF "DeclaredArrayNestedUnchecked" \in D THEN 1 ELSE InlineDepth(f)) :
+     ~(Attached(f, k, D \ {"NestedArrayOuterLimits"}) /\ DepthRejects(f, k, v, D \ {"NestedArrayOuterLimits"}))
 =============================================================================
